@@ -494,7 +494,7 @@ func main() {
 		return
 	}
 	defer drv.Close()
-	run.Res.Rule = "documents the real parser accepts, from (a) gen.DocGen (executable + type-system, Exotic on), (b) a string-content stream (string values and descriptions built from quotes, backslashes, every control character, DEL, non-BMP / non-printable code points, invalid UTF-8, block strings with quotes / escaped triple quotes / newlines / indentation, placed in arguments, defaults, nested lists/objects, directive arguments on every definition kind), (c) a fixed corpus of edge documents; non-trivial = the AST has >= 6 astjson nodes; distinct by source text"
+	run.Res.Rule = "documents the real parser accepts, from (a) gen.DocGen (executable + type-system, Exotic on), (b2) multi-line descriptions built line by line (interior lines empty / 1..5 spaces / tabs / mixed whitespace / content with leading or trailing spaces) in every description slot of every describable node kind at nesting levels 0, 1, 2, (b) a string-content stream (string values and descriptions built from quotes, backslashes, every control character, DEL, non-BMP / non-printable code points, invalid UTF-8, block strings with quotes / escaped triple quotes / newlines / indentation, placed in arguments, defaults, nested lists/objects, directive arguments on every definition kind), (c) a fixed corpus of edge documents; non-trivial = the AST has >= 6 astjson nodes; distinct by source text"
 
 	one := func(c caseT) {
 		src := c.src()
@@ -575,6 +575,12 @@ func main() {
 	for i := 0; i < m && !run.TooManyViolations(); i++ {
 		r := hx.Fork(run.Seed^0x5bd1e995, i)
 		one(mkCase(stringDoc(r), "strings"))
+	}
+	// (b2) multi-line descriptions on every describable node kind at every nesting level
+	md := run.N(3000, 120000)
+	for i := 0; i < md && !run.TooManyViolations(); i++ {
+		r := hx.Fork(run.Seed^0x165667b1, i)
+		one(mkCase(descDoc(r), "descriptions"))
 	}
 	// (d) the reference reader of the value round-trip theorem against the real parser.ParseValue
 	k := run.N(1200, 60000)
@@ -758,6 +764,47 @@ func tagDocument(run *hx.Run, src string, res result) {
 	if strings.Contains(res.t1, "\"\"\"\n") {
 		run.Tag("printed-has:multi-line-description")
 	}
+	tagBlockDescriptions(run, res.t1)
+}
+
+// tagBlockDescriptions looks at the printed multi-line block strings: nesting level (indentation of the opening
+// quotes) and whether an interior line holds only whitespace beyond that indentation / is completely empty.
+func tagBlockDescriptions(run *hx.Run, t string) {
+	lines := strings.Split(t, "\n")
+	seen := map[string]bool{}
+	for i := 0; i < len(lines); i++ {
+		trim := strings.TrimLeft(lines[i], " ")
+		if trim != `"""` {
+			continue
+		}
+		ind := len(lines[i]) - len(trim)
+		j := i + 1
+		for j < len(lines) && strings.TrimLeft(lines[j], " ") != `"""` {
+			j++
+		}
+		if j >= len(lines) {
+			break
+		}
+		seen[fmt.Sprintf("block-description:indent-%d", ind)] = true
+		for _, l := range lines[i+1 : j] {
+			body := l
+			if len(l) >= ind {
+				body = l[ind:]
+			}
+			switch {
+			case l == "" || body == "":
+				seen[fmt.Sprintf("block-description:indent-%d:interior-empty-line", ind)] = true
+			case strings.Trim(body, " \t") == "":
+				seen[fmt.Sprintf("block-description:indent-%d:interior-whitespace-only-line", ind)] = true
+			case body[0] == ' ' || body[0] == '\t':
+				seen[fmt.Sprintf("block-description:indent-%d:interior-indented-content", ind)] = true
+			}
+		}
+		i = j
+	}
+	for k := range seen {
+		run.Tag(k)
+	}
 }
 
 // ---------------------------------------------------------------- (b) string-content stream
@@ -880,9 +927,116 @@ func strLit(r *hx.Rng) string {
 	return regularLiteral(r, content(r))
 }
 
+// multiLineDesc: a multi-line description built line by line. First and last line mostly carry content (so that many
+// are block-safe and printed as block strings); interior lines are drawn from {empty, 1..5 spaces, tabs, mixed
+// whitespace, content, content with leading spaces / tabs, content with trailing spaces}. Written as an ordinary "…"
+// literal (newlines as \n), so the description value is exactly these lines.
+func multiLineDesc(r *hx.Rng) string {
+	word := func() string {
+		return r.Pick([]string{"a", "first", "last", "x y", "say \"hi\"", "é", "t\tab", "#", "\\"})
+	}
+	interior := func() string {
+		switch r.Intn(10) {
+		case 0:
+			return ""
+		case 1:
+			return strings.Repeat(" ", r.Range(1, 5))
+		case 2:
+			return strings.Repeat("\t", r.Range(1, 2))
+		case 3:
+			return r.Pick([]string{" \t", "\t ", "  \t  ", " \t \t"})
+		case 4, 5:
+			return strings.Repeat(" ", r.Range(1, 5)) + word()
+		case 6:
+			return "\t" + word()
+		case 7:
+			return word() + strings.Repeat(" ", r.Range(1, 3))
+		default:
+			return word()
+		}
+	}
+	edge := func() string {
+		switch r.Intn(12) {
+		case 0:
+			return interior() // sometimes blank or indented: not block-safe, printed as a quoted string
+		case 1:
+			return strings.Repeat(" ", r.Range(1, 3)) + word()
+		default:
+			return word()
+		}
+	}
+	n := r.Range(2, 6)
+	lines := []string{edge()}
+	for i := 0; i < n-2; i++ {
+		lines = append(lines, interior())
+	}
+	lines = append(lines, edge())
+	return regularLiteral(r, strings.Join(lines, "\n")) + r.Pick([]string{" ", "\n"})
+}
+
+// descDoc: a type-system definition with a multi-line description in every description slot (definition, field,
+// argument, enum value, input field, directive argument: nesting levels 0, 1 and 2).
+func descDoc(r *hx.Rng) string {
+	d := func() string {
+		if r.Chance(1, 8) {
+			return ""
+		}
+		return multiLineDesc(r)
+	}
+	args := func() string {
+		if r.Chance(1, 3) {
+			return ""
+		}
+		n := r.Range(1, 2)
+		p := []string{}
+		for i := 0; i < n; i++ {
+			p = append(p, d()+r.Pick([]string{"a", "b"})+": Int"+r.Pick([]string{"", " = 1", " @d"}))
+		}
+		return "(" + strings.Join(p, ", ") + ")"
+	}
+	fields := func() string {
+		n := r.Range(1, 3)
+		p := []string{}
+		for i := 0; i < n; i++ {
+			p = append(p, d()+r.Pick([]string{"f", "g"})+args()+": T"+r.Pick([]string{"", " @d"}))
+		}
+		return "{ " + strings.Join(p, " ") + " }"
+	}
+	switch r.Intn(8) {
+	case 0:
+		return d() + "type T " + fields()
+	case 1:
+		return d() + "interface I " + fields()
+	case 2:
+		n := r.Range(1, 3)
+		p := []string{}
+		for i := 0; i < n; i++ {
+			p = append(p, d()+r.Pick([]string{"A", "B", "C"})+r.Pick([]string{"", " @d"}))
+		}
+		return d() + "enum E { " + strings.Join(p, " ") + " }"
+	case 3:
+		n := r.Range(1, 3)
+		p := []string{}
+		for i := 0; i < n; i++ {
+			p = append(p, d()+r.Pick([]string{"a", "b"})+": String"+r.Pick([]string{"", " = \"x\""}))
+		}
+		return d() + "input In { " + strings.Join(p, " ") + " }"
+	case 4:
+		return "extend " + d() + "type T " + fields()
+	case 5:
+		return d() + "directive @x" + args() + " on FIELD"
+	case 6:
+		return d() + "scalar S"
+	default:
+		return d() + "union U = A | B"
+	}
+}
+
 // descLit: an optional description followed by a separator
 func descLit(r *hx.Rng) string {
-	switch r.Intn(5) {
+	switch r.Intn(6) {
+	case 5:
+		return multiLineDesc(r)
 	case 0:
 		return ""
 	case 1:
